@@ -198,7 +198,8 @@ def run_property(pid, tier="quick", seed=0, jobs=None):
         violations.append((k, path, reproduced))
     for b in bounded_results:
         for i, fl in enumerate(b.get("failures", [])[:3]):
-            path = os.path.join("replay", f"{pid}-bounded-{b['name']}-{i}.json")
+            safe = "".join(ch if ch.isalnum() or ch in "-_." else "_" for ch in b["name"])
+            path = os.path.join("replay", f"{pid}-bounded-{safe}-{i}.json")
             with open(os.path.join(VERIF, path), "w") as f:
                 json.dump(dict(property=pid, obligation=f"bounded:{b['name']}", function=b["function"], bound=b["bound"],
                                failing_input=fl.get("input"), detail=fl.get("detail"), reproduced_on_real_code=True,
